@@ -43,7 +43,7 @@ P = {
  "C12": dict(cat="exploration", sec="4/C12", tech="runtime monitoring: catch_unwind around every delivery in a BFS over real sign states + long hostile random walks, checked and plain profiles",
    text="Every transition of the breadth-first state exploration and of long random/directed walks (all chunk lengths, arbitrary config blocks, counter saturation, lost/extra/duplicate chunks, buses of 1-3 signs, a trace-level log sink) runs under catch_unwind in a build with overflow checks on; a panic is the violation.",
    note="Trusted: nothing beyond catch_unwind; bounded exploration + random walks."),
- "C13": dict(cat="model_checking", sec="4/C13", tech="runtime monitoring: lockstep reference state machine during BFS over the real implementation's state to a fixed point under bounds",
+ "C13": dict(cat="exploration", sec="4/C13", tech="runtime monitoring: lockstep reference state machine during BFS over the real implementation's state to a fixed point under bounds",
    text="The real VirtualSign is explored breadth-first (its own Hash/Eq) to a fixed point under bounds with a wide alphabet; after every transition reply, state, type and pages are compared with an independent sign-side machine, plus model-free page invariants. Random walks cover beyond the bounds.",
    note="Trusted: refsign (Appendix B); in undocumented corners it encodes pinned behaviour (regression oracle)."),
  "C14": dict(cat="exploration", sec="4/C14", tech="runtime monitoring: two-run non-interference monitor (bus vs solo shadow signs) over random interleavings + BFS of a 2-sign bus",
